@@ -6,7 +6,8 @@ from __future__ import annotations
 
 import z3
 
-from vf import sym, models
+from vf import sym, models, ops
+from vf.ops import MethodModel
 from vf.sym import SV, INT, BOOL, STR, BYTES, Opt
 from vf.interp import Model, Raised, Exc, Obj
 from vf.unit import Unit, Lemma
@@ -118,8 +119,84 @@ def units(prop):
     return [
         Unit(f'{prop}.load', REPO_PY, 'Repository._download_snapshot_threadsafe', setup, post, prop=prop),
         Lemma(f'{prop}.lemma.transparent', lemma_transparent, prop=prop),
-    ]
+    ] + cache_prim_units(prop)
+
+
+
+
+
+# ------------------------------------------------------------------ the three cache primitives name the SAME file
+def cache_prim_setup(b):
+    from vf.sym import Opt
+    me = shared.repo_self(b)
+    b.me = me
+    b.sym('path', STR)
+    b.sym('data', BYTES)
+    P = models.opaque_type('CachePath')
+
+    def path_ctor(interp, st, args, kwargs):
+        st.emit('Path', args=list(args))
+        if len(args) == 2:
+            d = ops.unwrap_opt(interp, st, args[0], 'cache_directory')
+            yield st, SV(P, UF('path_under', STR, STR, P)(sym.lift(d, STR).z, sym.lift(args[1], STR).z))
+        else:
+            yield st, sym.fresh(P, 'other_path')
+
+    def ev(name):
+        def m(interp, st, args, kwargs):
+            st.emit(name, target=args[0], args=list(args[1:]), kwargs=dict(kwargs))
+            if name == 'read_bytes':
+                bad = st.copy()
+                yield bad, Raised(Exc('FileNotFoundError'))
+                yield st, sym.fresh(BYTES, 'cached_bytes')
+            else:
+                yield st, None
+        return MethodModel(name, m)
+
+    def parent(interp, st, v):
+        yield st, SV(P, UF('parent_of', P, P)(v.z))
+
+    P.attrs = {'read_bytes': ev('read_bytes'), 'write_bytes': ev('write_bytes'), 'unlink': ev('unlink'), 'mkdir': ev('mkdir'),
+               'parent': ops.Property(parent)}
+    b.P = P
+    b.bind('Path', Model('Path', path_ctor))
+
+
+def cache_prim_post(prop, which):
+    def post(res):
+        b = res.builder
+        P = b.P
+        cd = b.me.get('_cache_directory')
+        entry = UF('path_under', STR, STR, P)(cd.ty.val(cd.z), b.st.lookup('path').z)
+        for p in res.paths:
+            if p.kind == 'raise' and p.value.cls in ('AssertionError', 'FileNotFoundError'):
+                continue
+            kinds = [e.kind for e in p.st.events]
+            op = {'_get_cached': 'read_bytes', '_store_cached': 'write_bytes', '_delete_cached': 'unlink'}[which]
+            evs = p.events(op)
+            ok = len(evs) == 1 and p.kind in ('return', 'normal')
+            # the entry of a snapshot is the file <cache directory>/<storage path of the snapshot>: the SAME file for lookup,
+            # store and removal (so a removed snapshot's entry is really removed and a stored entry is the one looked up)
+            res.oblige(p, f'{prop}.cache.{which}.acts_on_the_entry_of_that_path', z3.BoolVal(ok) if not ok else evs[0].data['target'].z == entry)
+            if which == '_store_cached' and ok:
+                res.oblige(p, f'{prop}.cache._store_cached.stores_the_given_bytes', z3.And(
+                    z3.BoolVal(len(evs[0].data['args']) == 1), sym.lift(evs[0].data['args'][0], BYTES).z == b.st.lookup('data').z if len(evs[0].data['args']) == 1 else z3.BoolVal(False)))
+                mk = p.events('mkdir')
+                res.oblige(p, f'{prop}.cache._store_cached.creates_the_directory_first', z3.BoolVal(
+                    len(mk) == 1 and kinds.index('mkdir') < kinds.index('write_bytes') and mk[0].data['kwargs'].get('parents') is True
+                    and mk[0].data['kwargs'].get('exist_ok') is True) if len(mk) != 1 else z3.And(
+                    z3.BoolVal(kinds.index('mkdir') < kinds.index('write_bytes') and mk[0].data['kwargs'].get('parents') is True and mk[0].data['kwargs'].get('exist_ok') is True),
+                    mk[0].data['target'].z == UF('parent_of', P, P)(entry)))
+            if which == '_delete_cached' and ok:
+                res.oblige(p, f'{prop}.cache._delete_cached.missing_entry_is_fine', z3.BoolVal(evs[0].data['kwargs'].get('missing_ok') is True))
+            if which == '_get_cached' and ok:
+                res.oblige(p, f'{prop}.cache._get_cached.returns_what_was_read', z3.BoolVal(isinstance(p.value, SV) and p.value.ty == BYTES and p.st.events[-1] is evs[0]))
+    return post
+
+
+def cache_prim_units(prop):
+    return [Unit(f'{prop}.{w}', REPO_PY, f'Repository.{w}', cache_prim_setup, cache_prim_post(prop, w), prop=prop)
+            for w in ('_get_cached', '_store_cached', '_delete_cached')]
 
 
 UNITS = units('C18')
-
